@@ -41,6 +41,9 @@ class Obligation(object):
         self.props = props
 
 
+exc_truthy = z3.Function("exc_truthy", I, B)
+
+
 class LoopSpec(object):
     def __init__(self, invariant=None, heap_modifies=None, keep_locals=(), ghost=None, body_post=None, at_entry=None, local_types=None, raise_post=None):
         self.raise_post = raise_post        # fn(engine, st, fr, ctx, exc) -> [(name, formula)]: what may be said when an iteration raises
@@ -480,6 +483,10 @@ class Engine(object):
             return st.get("$len", Val.id(t)) != 0
         if isinstance(ty, tuple) and ty[0] in ("inst", "sub", "weakref"):
             return z3.BoolVal(True)
+        if ty == "exc" and getattr(self.cfg, "falsy_exceptions", False):
+            # A-TRUTHY lifted for this unit: an exception class may define __bool__/__len__ (an `ExceptionGroup`-like error with no
+            # sub-errors is falsy); the stdlib itself tests `if self._exception` in result()
+            return exc_truthy(Val.id(t))
         if ty in ("future", "anyfuture", "executor", "callable", "exc", "lock", "rlock", "event", "thread", "logger", "metric", "weakref"):
             return z3.BoolVal(True)      # A-TRUTHY / futures and executors define no __bool__/__len__
         if ty == "str":
@@ -1455,6 +1462,24 @@ class Engine(object):
                 yield r
             return
         depth = (fr.depth + 1) if fr is not None else 0
+        rb = getattr(self.cfg, "recursion_bound", {}).get(func.qualname)
+        if rb is not None:
+            # a function that legitimately re-enters itself a bounded number of times on one path (flat_map: stage 1 runs stage 2 at once
+            # when the returned future is done already): deeper nesting is reported, not followed
+            nest = st.ghost.get("nest:" + func.qualname, 0)
+            if nest >= rb[0]:
+                self.oblige(st, fr, rb[1], "PC", z3.BoolVal(False), info={"site": self.site(fr, node)}, props=rb[2])
+                yield st, None
+                return
+            st.ghost["nest:" + func.qualname] = nest + 1
+            for s1, r in self._call_func_body(st, fr, func, args, kwargs, star, starkw, node, env, self_cls, depth):
+                s1.ghost["nest:" + func.qualname] = nest
+                yield s1, r
+            return
+        for r in self._call_func_body(st, fr, func, args, kwargs, star, starkw, node, env, self_cls, depth):
+            yield r
+
+    def _call_func_body(self, st, fr, func, args, kwargs, star, starkw, node, env, self_cls, depth):
         if depth > self.cfg.max_depth:
             raise Unsupported("inlining depth exceeded at %s" % func.qualname)
         # decorators handled: executor_loop (wrapper inlined by builtins), classmethod, property,
